@@ -25,6 +25,16 @@ func (te *tableEngine) tableGameOpen() error {
 		return nil
 	}
 
+	// a hand that has been opened but has not published its first state yet is running as well
+	runningStatuses := []TableStateStatus{
+		TableStateStatus_TableGameOpened,
+		TableStateStatus_TableGamePlaying,
+		TableStateStatus_TableGameSettled,
+	}
+	if funk.Contains(runningStatuses, te.table.State.Status) {
+		return nil
+	}
+
 	// 開局
 	newTable, err := te.openGame(te.table)
 
